@@ -67,16 +67,20 @@ class Ctx:
         self.outcomes = Counter()
         self.nontrivial = set()
         self.failures = []  # (clause, case, detail)
+        self.origins = []  # (shard, ordinal of the enumerated case) for each failure
         self.fail_counts = Counter()
         self.samples = []
         self.extra = Counter()
         self._case = None
+        self._shard = None
+        self._index = -1
 
     # -- called by checks --------------------------------------------------------
     def fail(self, clause, detail="", case=None):
         self.fail_counts[clause] += 1
         if self.fail_counts[clause] <= self.MAX_FAIL_PER_CLAUSE:
             self.failures.append((clause, case if case is not None else self._case, str(detail)[:2000]))
+            self.origins.append((self._shard, self._index))
 
     def state(self, key):
         self.states.add(h64(key))
@@ -164,9 +168,11 @@ def _run_shard(shard):
     try:
         import numpy
 
-        for case in check.cases(tier, shard):
+        ctx._shard = shard
+        for index, case in enumerate(check.cases(tier, shard)):
             numpy.random.seed(seed)
             ctx._case = case
+            ctx._index = index
             ctx.evaluations += 1
             if len(ctx.samples) < 2:
                 ctx.samples.append(check.show(case))
@@ -181,7 +187,7 @@ def _run_shard(shard):
         "transitions": ctx.transitions,
         "outcomes": ctx.outcomes,
         "nontrivial": ctx.nontrivial,
-        "failures": ctx.failures,
+        "failures": [f + o for f, o in zip(ctx.failures, ctx.origins)],
         "fail_counts": ctx.fail_counts,
         "samples": ctx.samples,
         "extra": ctx.extra,
@@ -285,7 +291,7 @@ def write_evidence(check, tier, seed, agg, wall, violations, known_hits, capped)
     return path
 
 
-def write_replay(check, clause, case, detail, original=None):
+def write_replay(check, clause, case, detail, original=None, history=None):
     d = os.path.join(os.environ.get("VERIF_REPLAY_DIR") or os.path.join(VERIF, "replays"), check.id)
     os.makedirs(d, exist_ok=True)
     body = {
@@ -297,6 +303,8 @@ def write_replay(check, clause, case, detail, original=None):
     }
     if original is not None:
         body["unshrunk_case"] = jsonable(original)
+    if history is not None:
+        body["history"] = history
     sha = hashlib.sha1(canon([clause, jsonable(case)]).encode()).hexdigest()[:16]
     path = os.path.join(d, "%s.json" % sha)
     with open(path, "w") as f:
@@ -309,6 +317,8 @@ def replay(pid, path):
     _G["seed"] = int(os.environ.get("VERIF_SEED", "0"))
     body = json.load(open(path))
     case = tup(body["case"])
+    if body.get("history"):
+        return replay_history(check, pid, path, body)
     a, ctx1 = failing_clauses(check, case)
     b, ctx2 = failing_clauses(check, case)
     if a != b:
@@ -320,6 +330,31 @@ def replay(pid, path):
         print("VIOLATION property=%s replay=%s" % (pid, path))
         return 1
     print("replay of %s: property %s holds on this case" % (path, pid))
+    return 0
+
+
+def replay_history(check, pid, path, body):
+    """run the cases of one shard, in order, up to the recorded ordinal, in this (fresh) process"""
+    import numpy
+
+    h = body["history"]
+    want = body["clause"].split(":", 1)[1]
+    shard = tup(h["shard"]) if isinstance(h["shard"], list) else h["shard"]
+    ctx = Ctx()
+    hit = False
+    for index, case in enumerate(check.cases(h["tier"], shard)):
+        numpy.random.seed(h.get("seed", 0))
+        ctx._case = case
+        before = len(ctx.failures)
+        check.run_case(case, ctx)
+        if index == h["upto"]:
+            hit = any(c == want for c, _k, _d in ctx.failures[before:])
+            break
+    if hit:
+        print("clause=%s after %d preceding cases of shard %r" % (want, h["upto"], shard))
+        print("VIOLATION property=%s replay=%s" % (pid, path))
+        return 1
+    print("replay of %s: no failure after the shard prefix" % path)
     return 0
 
 
@@ -390,7 +425,8 @@ def main(pid, tier, seed):
     # deterministic order: simplest (shortest) first
     fails = sorted(agg["failures"], key=lambda f: (f[0], len(canon(f[1])), canon(f[1])))
     shrink_cache = {}
-    for clause, case, detail in fails:
+    history_checked = 0
+    for clause, case, detail, origin_shard, origin_index in fails:
         key0 = (clause, canon(case))
         if key0 in shrink_cache:
             continue
@@ -414,8 +450,22 @@ def main(pid, tier, seed):
             print("INTERNAL non-deterministic failure for %s" % canon(check.show(small))[:300])
             return 2
         if clause not in a:
-            # shrinking changed nothing but the case does not fail in the parent: harness bug
-            print("INTERNAL failure did not reproduce: %s %s" % (clause, canon(check.show(small))[:300]))
+            # The case fails only after the cases that preceded it in its shard: state left behind by earlier
+            # calls changes a later outcome.  Replay the shard prefix in a fresh interpreter to confirm.
+            if history_checked >= 3:
+                continue
+            history_checked += 1
+            path = write_replay(check, "history-dependent:" + clause, case, detail,
+                                history={"tier": tier, "shard": jsonable(origin_shard), "upto": origin_index, "seed": seed})
+            import subprocess
+            rc = subprocess.run([sys.executable, os.path.join(VERIF, "run.py"), pid, "--replay", path],
+                                capture_output=True, text=True, env=dict(os.environ, VERIF_NPROC="1")).returncode
+            if rc == 1:
+                violations.append(("history-dependent:" + clause, case, path,
+                                   "fails only after the %d preceding cases of its shard (state left behind by earlier calls): %s" % (origin_index, detail)))
+                seen_ident[("history-dependent:" + clause, canon(check.show(case)))] = True
+                continue
+            print("INTERNAL failure did not reproduce, alone or after its shard prefix: %s %s" % (clause, canon(check.show(case))[:300]))
             return 2
         det = next((d for c, _k, d in ctx1.failures if c == clause), detail)
         path = write_replay(check, clause, small, det, original=case if small is not case else None)
